@@ -314,6 +314,8 @@ structure St where
   mids : List MidImg := []                -- crash images of the call in progress (several write txs)
   midNode : String := ""
   midN : Nat := 0
+  earlyA : List (Bool × Nat × Nat) := []   -- acks (settle-fail?, height, index) of packages not yet dumped
+  earlyB : List (Bool × Nat × Nat) := []
   kFreshA : Bool := false                 -- the last K dump of the node is its current durable state
   kFreshB : Bool := false
   wtChecked : Nat := 0
@@ -782,9 +784,12 @@ def probeChecks (s : St) (node : String) : IO St := do
   -- filters must be what the acknowledgements / the forwarding decision written since imply
   let mut fh := if node == "A" then s.fhA else s.fhB
   for p in k.fwdD do
+    let early := if node == "A" then s.earlyA else s.earlyB
     let h : Fwd.Hist := match fh.find? (·.height == p.height) with
       | some h => h
-      | none => { height := p.height, adds := p.adds, sfs := p.sfs }
+      | none => { height := p.height, adds := p.adds, sfs := p.sfs,
+                  acked := (early.filter (fun e => !e.1 && e.2.1 == p.height)).map (·.2.2),
+                  sfAcked := (early.filter (fun e => e.1 && e.2.1 == p.height)).map (·.2.2) }
     if !fh.any (·.height == p.height) then fh := fh ++ [h]
     s := { s with pkgDetailChecks := s.pkgDetailChecks + 1 }
     if !h.acked.isEmpty || !h.sfAcked.isEmpty || h.fwd.isSome then s := { s with pkgPartial := s.pkgPartial + 1 }
@@ -1076,8 +1081,10 @@ def evalMids (s : St) (addAcks sfAcks : List (Nat × Nat)) : IO St := do
     -- acknowledgements need a durable carrier
     for p in im.fwdD do
       let h := fh.find? (·.height == p.height)
+      let early := if node == "A" then s.earlyA else s.earlyB
       let known (sel : Bool) (i : Nat) : Bool :=
         (match h with | some h => (if sel then h.sfAcked else h.acked).contains i | none => false) ||
+        early.contains (sel, p.height, i) ||
         (im.hasPend && (if sel then sfAcks else addAcks).contains (p.height, i))
       for (sel, d, nm) in [(false, p.ack, "add"), (true, p.sf, "settle/fail")] do
         let bad := (List.range d.bits.length).filter (fun i => d.bits.getD i false && !known sel i)
@@ -1089,6 +1096,7 @@ def evalMids (s : St) (addAcks sfAcks : List (Nat × Nat)) : IO St := do
       if !eqPost && preFresh && pre.seen && pre.raw != im.raw then
         let d := (im.raw.zip pre.raw).find? (fun (a, b) => a != b)
         s ← monitor s "crash-image-torn" s!"node={node} the durable state after write transaction {im.tx} of {s.midN} of one call is neither the state before the call nor the state after it; first difference to the state before: {(d.map (fun q => (q.1.take 160).toString)).getD "(number of lines)"}"
+  s := if node == "A" then { s with kFreshA := false } else { s with kFreshB := false }
   return s
 
 def midLine (s : St) (ws : List String) (text : String) : IO St := do
@@ -1123,7 +1131,9 @@ def wtLine (s : St) (node : String) (rest : List String) : IO St := do
       | "recv_revoke" => opWriteTxs .receiveRevocation e
       | _ => opWriteTxs (.updateFee 0) e
   let mut s := { s with wtChecked := s.wtChecked + 1, wtWriting := s.wtWriting + (if n > 0 then 1 else 0), midN := n, midNode := node }
-  if n > 0 then
+  -- the last K dump stops being the current durable state (for n ≥ 2 only after the images of
+  -- this call have been compared with it)
+  if n == 1 then
     s := if node == "A" then { s with kFreshA := false } else { s with kFreshB := false }
   if n != want && !s.borked then
     s ← mismatch s s!"write-tx-count node={node} {op} => {res}: the model performs {want} atomic durable write(s), the code committed {n} write transactions"
@@ -1146,7 +1156,10 @@ def step (s : St) (line : String) : IO St := do
     if (kv? rest "res") == some "ok" then
       let fh := if node == "A" then s.fhA else s.fhB
       let fh' := Fwd.histStep (Fwd.histStep fh (.ack false adds)) (.ack true sfs)
-      return if node == "A" then { s with fhA := fh' } else { s with fhB := fh' }
+      -- packages the driver has not seen dumped yet (sparse probing): remembered until first seen
+      let unk := (adds.filter (fun r => !fh.any (·.height == r.1))).map (fun r => (false, r.1, r.2)) ++
+                 (sfs.filter (fun r => !fh.any (·.height == r.1))).map (fun r => (true, r.1, r.2))
+      return if node == "A" then { s with fhA := fh', earlyA := s.earlyA ++ unk } else { s with fhB := fh', earlyB := s.earlyB ++ unk }
     return s
   | "FACT" :: rest =>
     let chk (s : St) (key : String) (v : Nat) : IO St :=
@@ -1174,7 +1187,7 @@ def step (s : St) (line : String) : IO St := do
                       caseMonitor := 0, cap := cfgA.capacity, anchors := cfgA.anchors, cfgA := cfgA,
                       qab := [], qba := [], dA := {}, dB := {}, pD := {}, probing := none, kA := {}, kB := {},
                       kPrevA := none, kPrevB := none, reloaded := [], xA := [], xB := [], sentA := "-", sentB := "-",
-                      revsA := [], revsB := [], fwdA := [], fwdB := [], fhA := [], fhB := [], mids := [], kFreshA := false, kFreshB := false, borked := false, taint := none, vA := 0, vB := 0,
+                      revsA := [], revsB := [], fwdA := [], fwdB := [], fhA := [], fhB := [], mids := [], earlyA := [], earlyB := [], kFreshA := false, kFreshB := false, borked := false, taint := none, vA := 0, vB := 0,
                       dirty := [], qlenAB := 0, qlenBA := 0, dead := false, resolved := [], hist := [] }
     if s.samples < 4 then
       IO.println s!"SAMPLE {line}"
